@@ -213,6 +213,8 @@ class RlaGetSlice(Family):
         last_sel = first + (cnt - 1) * step
         ctx.prove("post.window start", z3.If(step > 0, lo == first, z3.And(lo <= last_sel, last_sel - lo < -step)))
         ctx.prove("post.window end", z3.If(step > 0, z3.And(hi > last_sel, hi - last_sel <= step), hi == first + 1))
+        for k_, f_ in enumerate(contract_slice_window(first, cnt, step, lo, hi, n)):
+            ctx.prove(f"contract.window[{k_}]", f_)
         if "step" in calls:
             ctx.prove("post.stride delegated with the same step", z3.And(calls["step"] == step, step != 1))
             ctx.prove("post.returns the strided window", z3.BoolVal(out == "STEPPED"))
@@ -433,6 +435,10 @@ class RlaStartToEnd(Family):
         ctx.skolem(z3.And(0 <= u, u < m, E(u) <= lo + p, lo + p < E(u + 1)))
         ctx.add_index(u, u + 1)
         ctx.prove("post.Dense'[p]==Dense[start+p]", va.get(t) == V(u), live=[p])
+        ground, schemas = contract_start_to_end_rel(E, V, m, ev.get, va.get, k, lo, hi)
+        ctx.prove("contract.ground facts", z3.And(*ground))
+        ctx.prove("contract." + schemas[0][0], schemas[0][1](t), live=[t])
+        ctx.prove("contract." + schemas[1][0], schemas[1][1](t, p, u), live=[t, p, u])
         ctx.prove("post.operand not modified", z3.BoolVal(a.ev.buf.writes == 0 and a.va.buf.writes == 0))
 
     def concrete(self, case):
@@ -559,6 +565,34 @@ class RlaConcatenate(Family):
             return {"msg": f"concatenate of rla({case['a']}) variants: {got}", "sig": "wrong:rla-concatenate"}
 
     bounded_cases = RlaUfunc.bounded_cases
+
+
+def contract_slice_window(first, cnt, step, lo, hi, n):
+    """caller-visible contract of RunLengthArray._get_slice for a non-empty selection (cnt > 0): the window [lo, hi) handed to _start_to_end
+    spans exactly the selected positions first, first+step, ..., last = first + (cnt-1)*step; it lies inside the array."""
+    last = first + (cnt - 1) * step
+    return [z3.And(0 <= lo, lo < hi, hi <= n),
+            z3.If(step > 0, z3.And(lo == first, hi > last, hi - last <= step), z3.And(hi == first + 1, lo <= last, last - lo < -step))]
+
+
+def contract_start_to_end_rel(Es, Vs, ms, Eb, Vb, mb, lo, hi):
+    """caller-visible contract of _start_to_end(lo, hi) (scalar form, 0 <= lo < hi <= N) in relational decode form: the result (Eb, Vb, mb) is
+    canonical with length hi - lo, and whenever position p lies in result run t and source position lo + p in source run u, the values agree."""
+    ground = [mb >= 1, Eb(0) == 0, Eb(mb) == hi - lo]
+    A = lambda t: z3.Implies(z3.And(0 <= t, t < mb), Eb(t) < Eb(t + 1))
+    B = lambda t, p, u: z3.Implies(z3.And(0 <= t, t < mb, Eb(t) <= p, p < Eb(t + 1), 0 <= u, u < ms, Es(u) <= lo + p, lo + p < Es(u + 1)), Vb(t) == Vs(u))
+    return ground, [("start_to_end.canonical", A, 1), ("start_to_end.decodes", B, 3)]
+
+
+def contract_step_subset_rel(Eb, Vb, mb, N, Eo, Vo, mo, DIV, MUL, s, forward, sim):
+    """caller-visible contract of _step_subset(step) on a canonical array (Eb, Vb, mb) of length N, |step| = s, in relational decode form:
+    ceil(N / s) positions; whenever position q lies in output run t and source position q*s (forward) / N-1-q*s (backward) in source run u, the
+    output value is the source value up to numpy ==.  q*s is MUL(q), ceil(N/s) is DIV(N+s-1)."""
+    src = (lambda q: MUL(q)) if forward else (lambda q: N - 1 - MUL(q))
+    ground = [mo >= 1, Eo(0) == 0, Eo(mo) == DIV(N + s - 1)]
+    A = lambda t: z3.Implies(z3.And(0 <= t, t < mo), Eo(t) < Eo(t + 1))
+    B = lambda t, q, u: z3.Implies(z3.And(q >= 0, 0 <= t, t < mo, Eo(t) <= q, q < Eo(t + 1), 0 <= u, u < mb, Eb(u) <= src(q), src(q) < Eb(u + 1)), sim(Vo(t), Vb(u)))
+    return ground, [("step_subset.canonical", A, 1), ("step_subset.decodes", B, 3)]
 
 
 def contract_from_array(xf, n, E, V, m, NE):
@@ -859,6 +893,22 @@ class RlaStepSubset(Family):
     def extra_functions(self):
         return ["RunLengthArray.__init__"]
 
+    def late_lemmas(self, ctx, kind, exc):
+        """the RunLengthArray constructor's assertions on join_runs' output cannot fail: first boundary (s-1)//s = 0, one boundary more than values,
+        boundaries strictly increasing (join_runs' contract)"""
+        calls = ctx.ghost.get("calls", {})
+        if not isinstance(exc, AssertionError) or "join_runs" not in calls or "remove_empty" not in calls:
+            return
+        re, jr = calls["remove_empty"], calls["join_runs"]
+        Z, One = z3.IntVal(0), z3.IntVal(1)
+        first = re["E"](Z)
+        pool = [Z, One, first, first + 1, first.arg(0), re["k2"], jr["k3"], jr["k3"] - 1, jr["k3"] + 1]
+        ffs = ctx.ghost.get("forall_facts", [])
+        if ffs:
+            w = ffs[-1]["w"]
+            pool += [w, w + 1, w + 2]
+        ctx.prove_then_assume("late.lemma: the constructor's assertions cannot fail", z3.BoolVal(False), pool=pool, kind="lemma")
+
     def run(self, ctx, kind):
         from npstructures.runlengtharray import RunLengthArray
         from ..sym.arr import div_abstraction
@@ -927,7 +977,7 @@ class RlaStepSubset(Family):
         ctx.prove_then_assume("post.lemma: the divided run i is [ceil(B(i)/s), ceil(B(i+1)/s)) and contains q", z3.And(lo_ <= q, q < hi_), pool=small)
         ctx.prove_then_assume("post.lemma: run i survives remove_empty_intervals with its value and bounds",
                               z3.And(0 <= r1, r1 < k2, e1(r1) == lo_, e1(r1 + 1) == hi_, v1(r1) == V(u)), pool=[u, u + 1, i, i + 1, m, m - u, m - u - 1], live=[q])
-        ctx.prove("post.position q lies in output run t", z3.And(0 <= t, t < k3, e3(t) <= q, q < e3(t + 1)), pool=pool)
+        ctx.prove_then_assume("post.position q lies in output run t", z3.And(0 <= t, t < k3, e3(t) <= q, q < e3(t + 1)), pool=pool)
         ctx.prove_then_assume("post.lemma: output run t carries the value of the chain head h <= r1", z3.And(v3(t) == v1(h), 0 <= h, h <= r1), pool=pool, live=[q])
         # ==-chain from h to r1 (induction on j): v1(h) ~ v1(j), ~ being identity or numpy ==
         j = z3.Int("j")
@@ -936,7 +986,16 @@ class RlaStepSubset(Family):
         _eq_is_transitive_symmetric(ctx, [v1(h), v1(j), v1(j + 1)])
         ctx.prove("chain.step: v1(h) ~ v1(j) => v1(h) ~ v1(j+1)", z3.Implies(sim(v1(h), v1(j)), sim(v1(h), v1(j + 1))), pool=pool + [j, j + 1, j - 1], live=[q, u])
         ctx.assume_forall("chain (by induction on j; base j = h is reflexivity of ~)", lambda j_: z3.Implies(z3.And(h <= j_, j_ <= r1), sim(v1(h), v1(j_))))
-        ctx.prove("post.output value at q ~ source value at q*s (resp. N-1-q*s)", sim(v3(t), V(u)), pool=pool, live=[q])
+        ctx.prove_then_assume("post.output value at q ~ source value at q*s (resp. N-1-q*s)", sim(v3(t), V(u)), pool=pool, live=[q])
+        # relational form for callers: ANY output run containing q is t (boundaries strictly increasing, pairwise by lemma adjacent-sorted=>sorted)
+        ctx.assume_forall("output boundaries increasing (pairwise; lemma adjacent-sorted=>sorted)", lambda a_, b_: z3.Implies(z3.And(0 <= a_, a_ < b_, b_ <= k3), e3(a_) < e3(b_)), arity=2)
+        t2 = z3.Int("t2")
+        ctx.skolem(z3.And(0 <= t2, t2 < k3, e3(t2) <= q, q < e3(t2 + 1)))
+        ctx.prove_then_assume("post.lemma: the output run containing q is unique", t2 == t, pool=[t, t + 1, t2, t2 + 1, q], live=[q, u])
+        ground, schemas = contract_step_subset_rel(E, V, m, n, e3, v3, k3, DIV, MUL, s, kind == "forward", sim)
+        ctx.prove("contract.ground facts", z3.And(*ground), pool=[m, m + 1, k2, k3, z3.IntVal(0)])
+        ctx.prove("contract." + schemas[0][0], schemas[0][1](t2), pool=[t2, t2 + 1], live=[q, u])
+        ctx.prove("contract." + schemas[1][0], schemas[1][1](t2, q, u), pool=[t, t2], live=[q, u, t2])
         ctx.prove("post.operand not modified", z3.BoolVal(a.ev.buf.writes == 0 and a.va.buf.writes == 0))
 
     def concrete(self, case):
@@ -1468,3 +1527,76 @@ class RlaRoundTrip(Family):
             ctx.prove("chain.step: x(q-1) == x(E(t)) => x(q) == x(E(t))", z3.Implies(xf(q - 1) == xf(E(t)), xf(q) == xf(E(t))), pool=[q, q - 1])
             ctx.assume_forall("chain (by induction on q; base q = E(t))", lambda q_: z3.Implies(z3.And(E(t) <= q_, q_ <= p), xf(q_) == xf(E(t))))
             ctx.prove("post.decode(encode(x))[p] == x[p], bit for bit", out(p) == xf(p), pool=[p, t], live=[p])
+
+
+@register
+class RlaSliceLemma(Family):
+    """C15 for slices as a lemma over the three proved contracts (window of _get_slice, sub-array of _start_to_end, stride of _step_subset; the
+    hypotheses are the shared contract formulas): for a non-empty selection rla[a:b:step] has cnt = len(range(n)[a:b:step]) positions and position q
+    holds (up to numpy ==) the value at source position first + q*step.  step > 0 and step < 0 separately; |step| = s symbolic with q*s written
+    MUL(q), linked to the genuine product by the induction MUL(x) == x*s; for step == 1 the stride is skipped."""
+    name = "lemma: rla[a:b:s] decodes to dense[a:b:s]"
+    qualname = "npstructures.runlengtharray:RunLengthArray._get_slice"
+    serves = ["C15"]
+    timeout_ms = 30000
+    assumed = ["callee contracts _get_slice window / _start_to_end / _step_subset (proved: .../contract.* in their families)",
+               "lemma partition-point (every position of a canonical array lies in a run)", "numpy == symmetric and transitive is NOT needed: the first two links are identities"]
+
+    def kinds(self):
+        return ["step>1", "step==1", "step<0"]
+
+    def run(self, ctx, kind):
+        from ..sym.arr import ElemSort
+        fn = lambda nm, *sorts: z3.Function(nm, *sorts)
+        II = (z3.IntSort(), z3.IntSort())
+        Es, Vs, ms = fn("Es", *II), fn("Vs", z3.IntSort(), ElemSort), z3.Int("ms")          # source (canonical, length n)
+        Eb, Vb, mb = fn("Eb", *II), fn("Vb", z3.IntSort(), ElemSort), z3.Int("mb")          # window sub-array
+        Eo, Vo, mo = fn("Eo", *II), fn("Vo", z3.IntSort(), ElemSort), z3.Int("mo")          # strided result
+        n, first, cnt, step, lo, hi = (z3.Int(x) for x in ("n", "first", "cnt", "step", "lo", "hi"))
+        sim = lambda a_, b_: z3.Or(a_ == b_, apply_binary("equal", a_, b_))
+        ctx.assume(z3.And(ms >= 1, Es(0) == 0, Es(ms) == n, cnt > 0))
+        ctx.assume({"step>1": step > 1, "step==1": step == 1, "step<0": step < 0}[kind])
+        for f in contract_slice_window(first, cnt, step, lo, hi, n):
+            ctx.assume(f)
+        g1, s1 = contract_start_to_end_rel(Es, Vs, ms, Eb, Vb, mb, lo, hi)
+        for f in g1:
+            ctx.assume(f)
+        for nm, f, ar in s1:
+            ctx.assume_forall(nm, f, arity=ar)
+        N = hi - lo
+        # every position of the sub-array lies in one of its runs (lemma partition-point on its boundaries)
+        runb = fn("run_b", *II)
+        ctx.assume_forall("run_b (partition point)", lambda p_: z3.Implies(z3.And(0 <= p_, p_ < N), z3.And(0 <= runb(p_), runb(p_) < mb, Eb(runb(p_)) <= p_, p_ < Eb(runb(p_) + 1))))
+        q, t, u = z3.Int("q"), z3.Int("t"), z3.Int("u")
+        if kind == "step==1":
+            # no stride: the result is the sub-array
+            ctx.prove("post.length == cnt", Eb(mb) == cnt)
+            ctx.skolem(z3.And(0 <= q, q < cnt, 0 <= t, t < mb, Eb(t) <= q, q < Eb(t + 1), 0 <= u, u < ms, Es(u) <= first + q * step, first + q * step < Es(u + 1)))
+            ctx.prove("post.position q holds the value at source position first + q*step", Vb(t) == Vs(u), pool=[t, q, u], live=[q])
+            return
+        s = z3.If(step >= 0, step, -step)
+        DIV, MUL = fn("DIV", *II), fn("MUL", *II)
+        ctx.assume(z3.And(MUL(0) == 0))
+        ctx.assume_forall("MUL.step", lambda x: MUL(x + 1) == MUL(x) + s)
+        ctx.assume_forall("floor-division", lambda a_: z3.And(MUL(DIV(a_)) <= a_, a_ < MUL(DIV(a_) + 1)))
+        x = z3.Int("x")
+        ctx.prove("lemma.MUL(x) == x*s.base", MUL(0) == 0 * s, kind="lemma")
+        ctx.prove("lemma.MUL(x) == x*s.step", z3.Implies(z3.And(x >= 0, MUL(x) == x * s), MUL(x + 1) == (x + 1) * s), pool=[x, x + 1], kind="lemma")
+        ctx.assume_forall("MUL(x) == x*s (by induction)", lambda x_: z3.Implies(x_ >= 0, MUL(x_) == x_ * s))
+        d = z3.Int("d")
+        ctx.prove("lemma.MUL increasing.base", MUL(x) < MUL(x + 1), pool=[x, x + 1], kind="lemma")
+        ctx.prove("lemma.MUL increasing.step", z3.Implies(z3.And(d >= 0, MUL(x) < MUL(x + d + 1)), MUL(x) < MUL(x + d + 2)), pool=[x, x + d + 1, x + d + 2], kind="lemma")
+        ctx.assume_forall("MUL increasing (by induction)", lambda p_, q_: z3.Implies(p_ < q_, MUL(p_) < MUL(q_)), arity=2)
+        g2, s2 = contract_step_subset_rel(Eb, Vb, mb, N, Eo, Vo, mo, DIV, MUL, s, kind == "step>1", sim)
+        for f in g2:
+            ctx.assume(f)
+        for nm, f, ar in s2:
+            ctx.assume_forall(nm, f, arity=ar)
+        a_len = N + s - 1
+        ctx.prove("post.length == cnt:  ceil((hi - lo) / s) == cnt", Eo(mo) == cnt, pool=[cnt, cnt - 1, cnt + 1, DIV(a_len), DIV(a_len) + 1, a_len, z3.IntVal(0)])
+        ctx.skolem(z3.And(0 <= q, q < cnt, 0 <= t, t < mo, Eo(t) <= q, q < Eo(t + 1), 0 <= u, u < ms, Es(u) <= first + q * step, first + q * step < Es(u + 1)))
+        sub = MUL(q) if kind == "step>1" else N - 1 - MUL(q)          # the position of the sub-array that the stride reads for q
+        ctx.prove_then_assume("post.lemma: the stride reads sub-array position q*s (resp. len-1-q*s), which is source position first + q*step",
+                              z3.And(0 <= sub, sub < N, lo + sub == first + q * step), pool=[q, q + 1, cnt, cnt - 1, z3.IntVal(0)], live=[q, t, u])
+        w = runb(sub)
+        ctx.prove("post.position q holds the value at source position first + q*step (up to numpy ==)", sim(Vo(t), Vs(u)), pool=[q, t, u, w, sub], live=[q])
